@@ -127,3 +127,70 @@ func ruleIndexPreserving(pkgPrefix string, floor int) ruleFunc {
 		c.R.Floor("H3-index-preserving", n, floor)
 	}
 }
+
+// ruleTileRounding (H6): both tile projections (power-of-two and general
+// extents) turn planar coordinates into tile integers the same way - math.Floor
+// of each coordinate - so that negative (buffer) coordinates round down, not
+// toward zero.  Read from the closures stored in the ToTile member.
+func ruleTileRounding(c *Ctx) {
+	p := c.P
+	c.R.Rule("H6: every closure stored in the ToTile member of the MVT projection returns math.Floor(...) for each coordinate (sibling implementations agree; truncation toward zero would shift negative tile coordinates)")
+	pk := p.Pkgs[orbPath+"/encoding/mvt"]
+	if pk == nil {
+		c.R.Unknown("H6-tile-rounding", "encoding/mvt", "", "package not found")
+		return
+	}
+	n := 0
+	for _, f := range pk.Syntax {
+		ast.Inspect(f, func(nd ast.Node) bool {
+			kv, ok := nd.(*ast.KeyValueExpr)
+			if !ok {
+				return true
+			}
+			id, ok := kv.Key.(*ast.Ident)
+			if !ok || id.Name != "ToTile" {
+				return true
+			}
+			fl, ok := kv.Value.(*ast.FuncLit)
+			if !ok {
+				return true
+			}
+			n++
+			cons := fmt.Sprintf("encoding/mvt.ToTile#%d", n)
+			bad := ""
+			ast.Inspect(fl.Body, func(m ast.Node) bool {
+				rs, ok := m.(*ast.ReturnStmt)
+				if !ok || len(rs.Results) != 1 {
+					return true
+				}
+				cl, ok := ast.Unparen(rs.Results[0]).(*ast.CompositeLit)
+				if !ok {
+					bad += " the result is not a point literal;"
+					return true
+				}
+				for i, el := range cl.Elts {
+					call, ok := ast.Unparen(el).(*ast.CallExpr)
+					okFloor := false
+					if ok {
+						if se, ok := call.Fun.(*ast.SelectorExpr); ok && se.Sel.Name == "Floor" {
+							if fn, ok := pk.TypesInfo.Uses[se.Sel].(*types.Func); ok && fn.Pkg().Path() == "math" {
+								okFloor = true
+							}
+						}
+					}
+					if !okFloor {
+						bad += fmt.Sprintf(" coordinate %d is %s, not math.Floor(...);", i, types.ExprString(el))
+					}
+				}
+				return true
+			})
+			if bad != "" {
+				c.R.Bad("H6-tile-rounding", cons, p.Pos(fl.Pos()), "tile coordinates must be rounded down:"+bad)
+			} else {
+				c.R.OK("H6-tile-rounding", cons, p.Pos(fl.Pos()), "math.Floor on both coordinates")
+			}
+			return true
+		})
+	}
+	c.R.Floor("H6-tile-rounding", n, 2)
+}
